@@ -213,7 +213,8 @@ def main(tier: str) -> int:
             fs = rnd.choice([1, 2, 5, 250])
             for integ in ("generic", "rdflib"):
                 cfg = impl.default_cfg(integ=integ, entry=entry, sclass=sclass, ltype=(1 if c["PType"] == 1 else 2),
-                                       preset=(c["MaxN"], c["MaxP"], c["MaxD"]), frame_size=fs, gen=False, star=False, as_sink=False)
+                                       preset=(c["MaxN"], c["MaxP"], c["MaxD"]), frame_size=fs, gen=False, star=False, as_sink=False,
+                                       plain_tuples=(bi % 2 == 1))
                 outs[integ] = _safe(impl.serialize, cfg, stmts)
             key = {"source": "pyjelly", "universe": uni, "entry": entry, "sub": sub.label}
             rp = {"statements": stmts, "entry": entry, "frame_size": fs}
